@@ -996,6 +996,14 @@ CLOSURE_RUNS_ON = {
 }
 
 
+def body_ty_is_bool(rv):
+    """The operand of a unary `Not` is a bool (not an integer being complemented)."""
+    a = rv.get("a") or {}
+    if a.get("k") == "const":
+        return a.get("ty") == "bool"
+    return is_place(a) and a["p"].get("ty") == "bool"
+
+
 class PathSens:
     """Variant/constant-aware reachability over a Super graph.
 
@@ -1131,6 +1139,11 @@ class PathSens:
                 f, _, _ = self._operand_fact(facts, path, {"k": "copy", "p": sp})
                 if f and f[0] == "var":
                     facts[key] = ("const", f[1])
+        elif k == "unop" and rv.get("op") == "Not" and body_ty_is_bool(rv):
+            f, _, _ = self._operand_fact(facts, path, rv["a"])
+            self._clear(facts, key)
+            if f is not None and f[0] == "const" and f[1] in (0, 1):
+                facts[key] = ("const", 1 - f[1])
         elif k == "ref" and rv.get("mut") and not rv["p"]["pr"]:
             self._clear(facts, (path, rv["p"]["l"]))
             self._clear(facts, key)
